@@ -369,6 +369,9 @@ Definition vit_alg_check (x : grammar_w * list (nat * list (nat * Q)) * list nat
   match scc (nt_graph G) with
   | None => 3
   | Some order =>
+    (* the order Tarjan's model returns passes the verified oracle of C19 (always, by
+       tarjan_correct; re-checked here so that the soundness theorem needs no premise) *)
+    if negb (scc_ok (nt_graph G) order) then 3 else
     let w := env_of trop_ops (weights_tmt trop_of G ws) in
     if negb (Nat.eqb (length xi) (length (ltype G (g_start G)))) then 2 else
     match viterbi_tables G w order tol kmax with
